@@ -19,6 +19,8 @@
 (*   lost_wakeup    the run ended (nobody can take a step without the environment's help)   *)
 (*                  with a thread parked in FUTEX_WAIT while all holders have released;     *)
 (*   panic          a lock operation panicked instead of returning;                         *)
+(*   unbounded_spin a blocking acquisition spins on the unchanged word without ever parking  *)
+(*                  (starves the holder under a non-preempting scheduler);                   *)
 (*   data_lost      get_mut / into_inner on the quiescent lock do not deliver the value the  *)
 (*                  write accesses left.                                                     *)
 (* Debug formatting of the lock hands out no guard: during the call the lock counts as      *)
@@ -34,6 +36,13 @@ Locs == {"futex", "state", "notify", "other"}
 AcqW == {"lock", "try_lock", "write", "try_write"}
 AcqR == {"read", "try_read"}
 Tries == {"try_lock", "try_read", "try_write"}
+Blocking == {"lock", "read", "write"}
+\* A blocking acquisition that re-reads the unchanged lock word SpinBound times in a row (n = number of
+\* identical consecutive loads merged into one event; the instrument stops merging there) never
+\* parks: under a scheduler that does not preempt the spinner (SCHED_FIFO, one CPU) the holder is
+\* never run and the call never returns although the holder would release.  The code's own spin
+\* budget is 100.
+SpinBound == 4096
 
 VARIABLES l, st, bad, nviol, nruns, ncut
 
@@ -134,7 +143,9 @@ OnObligation(s, e) ==
 Apply(s, e) ==
     CASE e.ev = "call"  -> OnCall(s, e)
       [] e.ev = "ret"   -> OnRet(s, e)
-      [] e.ev = "load"  -> OnRead(s, e.t, e.loc, e.ord)
+      [] e.ev = "load"  -> IF e.n >= SpinBound /\ s.incall[e.t] \in Blocking
+                           THEN Flag(OnRead(s, e.t, e.loc, e.ord), "unbounded_spin")
+                           ELSE OnRead(s, e.t, e.loc, e.ord)
       [] e.ev = "cas"   -> IF e.ok THEN OnRmw(s, e.t, e.loc, e.os) ELSE OnRead(s, e.t, e.loc, e.of)
       [] e.ev \in {"swap", "fadd", "fsub"} -> OnRmw(s, e.t, e.loc, e.ord)
       [] e.ev = "store" -> OnStore(s, e.t, e.loc, e.ord)
